@@ -10,8 +10,17 @@
   `TMw` then says of `skipTplAt`: an error (over a live source only if refTpl rejects), or success
   with refTpl's extent consumed exactly.  Never a panic; the struct loop's fuel suffices.
 -/
-import Verif.Lemmas.SkipTplB
+import Verif.Lemmas.SkipTpl
 namespace Verif
+
+/-- 2^31 · 16: the largest request SkipDecoderTpl.Skip can make (a size field is an int32, a
+    fixed-size key/value pair has at most 16 bytes) -/
+def tplReq : Nat := 34359738368
+
+theorem mul_le_tplReq (n a b : Nat) (hn : n < 2147483648) (ha : a ≤ 8) (hb : b ≤ 8) :
+    n * (a + b) ≤ tplReq := by
+  have := Nat.mul_le_mul (Nat.le_of_lt hn) (show a + b ≤ 16 by omega)
+  unfold tplReq; omega
 
 structure WCursor {σ : Type} (B : Backend σ) (rem : σ → Bytes) (P : σ → Prop) (live : Prop) (bound : Nat) :
     Prop where
